@@ -223,6 +223,8 @@ def replay(ob):
     s["order"] = tuple(s["order"]) if s.get("order") else None
     s["other_coords"] = {k: tuple(v) for k, v in (s.get("other_coords") or {}).items()}
     clause = ob["id"].rsplit("/", 1)[-1]
+    if clause.startswith("frame:"):
+        return C01.native_frame_replay(s, C01.scenario)
     if (clause.startswith("values") or clause == "dims") and not (multi and s["op"] == "cumsum"):
         specf = (lambda s_, r_: C09.single_spec(s_, r_)) if s["op"] == "cumsum" else (lambda s_, r_: C01.op_spec(s_, r_))
         return C01.replay_scenario(s, wit.get("model", {}), C01.scenario, specf, "op")
